@@ -76,9 +76,10 @@ type RunSummary struct {
 // Witness is a completed path together with the concrete nondet vector and the
 // engine-predicted observations, for native replay comparison.
 type Witness struct {
-	Nondets []NDVal
-	Obs     []string
-	Covers  []string
+	Nondets    []NDVal
+	Obs        []string
+	Covers     []string
+	Concurrent bool // the path ran several goroutines: natively only assertion failures are compared
 }
 
 func fmtObs(m *Machine, o obsEntry) string {
@@ -166,12 +167,13 @@ func (m *Machine) RunPath(item WorkItem, entry *ssa.Function, args []value, emit
 	m.usedUF = false
 	m.fixedPos = 0
 	m.termLabel = ""
+	m.gates = nil
 	m.abortCh = make(chan struct{})
 	m.endCh = make(chan struct{})
 	m.endOnce = sync.Once{}
 	m.rootFn = entry
 
-	g0 := &G{id: 0, wake: make(chan struct{}, 1), doneIdx: -1}
+	g0 := &G{id: 0, wake: make(chan struct{}, 1), doneIdx: -1, started: true}
 	m.gs = append(m.gs, g0)
 	m.cur = g0
 	m.startG(g0, entry.Pos(), entry, args)
@@ -226,6 +228,7 @@ func (m *Machine) RunPath(item WorkItem, entry *ssa.Function, args []value, emit
 		res.Outputs = append(res.Outputs, fmtObs(m, o))
 	}
 	res.UsedUF = m.usedUF
+	res.Concurrent = len(m.gs) > 1
 	m.prevPC, m.prevTrail, m.prevPCAt = m.pc, m.trail, m.pcAt
 	if m.synced > len(m.pc) {
 		m.solver.PopTo(len(m.pc))
@@ -409,7 +412,7 @@ func Explore(p *Program, entry *ssa.Function, spec *RunSpec) *RunSummary {
 						sum.Samples = append(sum.Samples, map[string]any{"nondets": compactND(res.Nondets), "cover": cl, "observed": res.Outputs, "decisions": len(res.Trail)})
 					}
 					if (len(sum.Witnesses) < wantWitness) && (!seenCoverSets[ck] || len(sum.Witnesses) < wantWitness/2 || wantWitness > 100) {
-						sum.Witnesses = append(sum.Witnesses, &Witness{Nondets: res.Nondets, Obs: res.Outputs, Covers: cl})
+						sum.Witnesses = append(sum.Witnesses, &Witness{Nondets: res.Nondets, Obs: res.Outputs, Covers: cl, Concurrent: res.Concurrent})
 					}
 					seenCoverSets[ck] = true
 				}
